@@ -137,7 +137,11 @@ class BarrelList(list):
             self.lists[0].insert(index, item)
             self._balance_list(0)
         else:
-            list_idx, rel_idx = self._translate_index(index)
+            if index >= len(self):
+                # like list.insert: at or past the end means append
+                list_idx, rel_idx = len(self.lists) - 1, len(self.lists[-1])
+            else:
+                list_idx, rel_idx = self._translate_index(index)
             if list_idx is None:
                 raise IndexError()
             self.lists[list_idx].insert(rel_idx, item)
